@@ -88,6 +88,17 @@ CHECKS = {
              "component within 0.5 % of range of the exact rational value, all finite.",
         design="DESIGN.md §5 C05",
         note=TRUST + "; observations scaled to integers by the harness (rounding widened in the tolerance)"),
+    "C03": dict(
+        technique="TLA+ relation Clip over barycentric coordinates with exact integer plane distances; TLC model-checks "
+                  "the relation against an exact rational Sutherland-Hodgman reference (accepts the ideal output, rejects "
+                  "broken ones); trace validation of recorded clip calls",
+        text="TLC runs an exact rational Sutherland-Hodgman over representative lattice triangles and checks that the "
+             "relation accepts its output and rejects outputs with a dropped or reversed triangle; the real clipper is run "
+             "on random lattice triangles (w of either sign, on-plane vertices), singly and in batches, and every output "
+             "is judged by TLC: feasibility, winding, tight boundary, sampled membership, attribute linearity, identity, "
+             "emptiness and batch independence.",
+        design="DESIGN.md §5 C03",
+        note=TRUST + "; barycentric least-squares solve and bitwise batch comparison in harness/src/clip.rs"),
 }
 
 NOT_YET = "check not built yet in this round (see DESIGN.md §9 for the order of work)"
